@@ -558,6 +558,24 @@ Fixpoint run_sched (n w ba : Z) (sched : list nat) (ts : list tstate) (s : stack
       end
   end.
 
+(* the start-up phase only: a thread that is ready keeps working (no WorkFree yet) *)
+Definition init_step (n w ba : Z) (t : tstate) (s : stack) : tstate * stack :=
+  match t with
+  | TReady _ _ => (t, s)
+  | _ => thread_step n w ba t s
+  end.
+
+Fixpoint run_init (n w ba : Z) (sched : list nat) (ts : list tstate) (s : stack) : list tstate * stack :=
+  match sched with
+  | [] => (ts, s)
+  | i :: rest =>
+      match nth_error ts i with
+      | None => run_init n w ba rest ts s
+      | Some t => let '(t', s') := init_step n w ba t s in
+                  run_init n w ba rest (upd ts i t') s'
+      end
+  end.
+
 (* the blocks a thread may still read or write *)
 Definition thread_blocks (n w : Z) (t : tstate) : list (Z * Z) :=    (* (offset, bytes) *)
   match t with
